@@ -65,6 +65,33 @@ mod verif_kani_qdldl {
         while c < 4 { assert!(lp0[c] == lp1[c]); c += 1; }
     }
 
+    // C04 / C12: the 0 x 0 matrix is a legal input of the engine (square, upper triangular, no empty column - check_structure
+    // accepts it; it is what the KKT system of a problem with no variables and no constraints looks like): factoring it
+    // must return, not panic.  Concrete, loop-free for n = 0 => complete.
+    #[kani::proof]
+    #[kani::unwind(3)]
+    fn factor_inner_empty_matrix() {
+        let ap = [0usize];
+        let ai: [usize; 0] = [];
+        let ax: [f64; 0] = [];
+        let mut lp = [0usize; 1];
+        let mut li: [usize; 0] = [];
+        let mut lx: [f64; 0] = [];
+        let mut d: [f64; 0] = [];
+        let mut dinv: [f64; 0] = [];
+        let lnz: [usize; 0] = [];
+        let etree: [usize; 0] = [];
+        let mut bwork: [bool; 0] = [];
+        let mut iwork: [usize; 0] = [];
+        let mut fwork: [f64; 0] = [];
+        let dsigns: [i8; 0] = [];
+        let mut count = 0usize;
+        let r = _factor_inner(0, &ap, &ai, &ax, &mut lp, &mut li, &mut lx, &mut d, &mut dinv, &lnz, &etree,
+                              &mut bwork, &mut iwork, &mut fwork, false, &dsigns, true, 1e-12, 1e-7, &mut count);
+        assert!(r.is_ok());
+        assert!(count == 0);
+    }
+
     // C12 / C08: symmetric permutation of an upper-triangular matrix and its entry map (bounded: n = 3, all 8 off-diagonal
     // patterns with full diagonal x all 6 permutations, enumerated concretely; symbolic non-NaN values)
     fn perm3(k: usize) -> [usize; 3] {
